@@ -237,6 +237,8 @@ impl caches::OnEvictCallback for RecCb {
 #[derive(Clone)]
 pub enum VHasher {
     Sip(std::collections::hash_map::RandomState),
+    /// SipHash with fixed keys (the fault slice: injections are identified by call index, so runs must repeat)
+    Sip0,
     Identity,
     Zero,
     Fnv,
@@ -244,6 +246,7 @@ pub enum VHasher {
 impl VHasher {
     pub fn from_mode(m: u64) -> Self {
         match m % 5 {
+            0 | 1 if DROP_IS_USER_CALL.load(std::sync::atomic::Ordering::Relaxed) => VHasher::Sip0,
             0 | 1 => VHasher::Sip(std::collections::hash_map::RandomState::new()),
             2 => VHasher::Identity,
             3 => VHasher::Zero,
@@ -263,6 +266,7 @@ impl BuildHasher for VHasher {
         user_call(0);
         match self {
             VHasher::Sip(s) => VH::Sip(s.build_hasher()),
+            VHasher::Sip0 => VH::Sip(std::collections::hash_map::DefaultHasher::new()),
             VHasher::Identity => VH::Identity(0),
             VHasher::Zero => VH::Zero,
             VHasher::Fnv => VH::Fnv(0xcbf2_9ce4_8422_2325),
